@@ -226,15 +226,8 @@ pub fn scan<V: Vary>(
 
 #[inline]
 fn round_up_to_half(x: f32) -> f32 {
-    #[cfg(feature = "fp")]
-    {
-        use crate::math::float::f32;
-        f32::floor(x + 0.5) + 0.5
-    }
-    #[cfg(not(feature = "fp"))]
-    {
-        (x + 0.5) as i32 as f32 + 0.5
-    }
+    use crate::math::float::f32;
+    f32::floor(x + 0.5) + 0.5
 }
 
 #[cfg(test)]
